@@ -4,7 +4,7 @@ import ast
 from ..core.model import AnchorError
 from ..core.cfg import walk_shallow, cfg_of
 from ..core.facts import U
-from ..engine import fn_name, kwarg, local_defs, returns_of, stmts_in
+from ..engine import argn, fn_name, kwarg, local_defs, returns_of, stmts_in
 from ..kinds import parity
 
 EXPLANATION = (
@@ -151,7 +151,7 @@ def _is_numeric_sentinel(e):
         return _is_numeric_sentinel(e.operand)
     if isinstance(e, ast.Constant) and isinstance(e.value, (int, float)) and not isinstance(e.value, bool) and e.value != 0:
         return True
-    if isinstance(e, ast.Call) and fn_name(e) == "float" and e.args and isinstance(e.args[0], ast.Constant) and isinstance(e.args[0].value, str):
+    if isinstance(e, ast.Call) and fn_name(e) == "float" and e.args and isinstance(argn(e, 0), ast.Constant) and isinstance(argn(e, 0).value, str):
         return True
     return U(e) in ("np.inf", "numpy.inf", "math.inf", "np_inf", "inf", "np.nan", "float('inf')", "sys.float_info.max", "sys.maxsize")
 
@@ -162,7 +162,7 @@ def _may_be_sentinel(g, e, depth=3):
     from ..engine import local_defs
     if _is_numeric_sentinel(e):
         return True
-    if isinstance(e, ast.Call) and fn_name(e) == "get" and len(e.args) == 2 and _is_numeric_sentinel(e.args[1]):
+    if isinstance(e, ast.Call) and fn_name(e) == "get" and len(e.args) == 2 and _is_numeric_sentinel(argn(e, 1)):
         return True
     if isinstance(e, ast.IfExp):
         return _may_be_sentinel(g, e.body, depth) or _may_be_sentinel(g, e.orelse, depth)
